@@ -8,7 +8,7 @@ adds foreign points, and compares
 
   get_mp_grid(points)                 == (N1,N2,N3)                              [complete meshes, any order, duplicates]
   grid_from_kpoints(points)           == (N1,N2,N3)                              [complete meshes, any order, duplicates]
-  grid_from_kpoints(points, grid=N)   == first occurrence of each mesh point, each mesh point exactly once
+  grid_from_kpoints(points, grid=N)   selects each mesh point exactly once (any one of identical copies), no foreign point
   incomplete mesh                     -> ValueError (grid_from_kpoints); get_mp_grid never returns a grid that
                                          does not contain all given points / is not the coarsest such mesh
 with the bookkeeping done on the integer indices.
@@ -18,7 +18,7 @@ import math
 import numpy as np
 from hypothesis import strategies as st
 
-from vlib.runner import Sub, Violation, Reject, ok
+from vlib.runner import Sub, Violation, ok
 
 PROPERTY_ID = "C23"
 RULE = ("Gamma-centred meshes N_i in 1..100 with prod(N) <= 1500, random order, coordinates as exact i/N, as (i/N +- m) % 1 "
@@ -199,13 +199,15 @@ def check(case):
         if not complete:
             raise Violation("incomplete-mesh-accepted", f"dims={dims}: {len(distinct)} of {NK} mesh points present, no ValueError")
         sel = [int(i) for i in sel]
-        if sel != want_sel:
-            picked = [entries[i] for i in sel]
-            if any(kind == "foreign" for kind, _ in picked):
-                raise Violation("foreign-point-selected", f"dims={dims} selected {sel[:10]}...")
-            if sorted(p for _, p in picked) != sorted(distinct):
-                raise Violation("selection-not-each-point-once", f"dims={dims} rep={case['rep']} selected {len(sel)} points")
-            raise Violation("selection-not-first-occurrence", f"dims={dims}: {sel[:12]} != {want_sel[:12]}")
+        if any(i < 0 or i >= len(entries) for i in sel):
+            raise Violation("selection-index-range", f"dims={dims}: {sel[:12]}")
+        picked = [entries[i] for i in sel]
+        if any(kind == "foreign" for kind, _ in picked):
+            raise Violation("foreign-point-selected", f"dims={dims} selected {sel[:10]}...")
+        if sorted(p for _, p in picked) != sorted(distinct):
+            raise Violation("selection-not-each-point-once", f"dims={dims} rep={case['rep']} selected {len(sel)} points for {NK} mesh points")
+        # which of several identical copies is taken is not promised by the statement (the code takes the first)
+        first_kept = sel == want_sel
     if not np.array_equal(pts_in, pts):
         raise Violation("mutates-input", "grid_from_kpoints changed the k-points")
 
@@ -249,6 +251,7 @@ def check(case):
               "complete" if complete else f"incomplete-{case['rem_mode']}",
               "coarser-complete" if (not complete and not has_foreign and G_complete) else None,
               "get_mp_grid-asserted" if (not has_foreign and mp is None) else None,
+              "first-copy-selected" if (has_dup and sel is not None and first_kept) else None,
               f"NK<={10 ** len(str(NK))}")
 
 
